@@ -5,16 +5,8 @@ import GoSQLXModel.Driver.LspOp
 namespace GoSQLXModel.Driver
 open GoSQLXModel.ExprParse
 
-def upperAscii (s : String) : String := s.map Char.toUpper
-
-def canonEx : Ex → String
-  | .ident n => "id(" ++ n ++ ")"
-  | .num v => "num(" ++ v ++ ")"
-  | .str v => "str(" ++ v ++ ")"
-  | .bool v => "bool(" ++ upperAscii v ++ ")"
-  | .null => "null"
-  | .bin op l r => "(" ++ canonEx l ++ " " ++ upperAscii op ++ " " ++ canonEx r ++ ")"
-  | .not e => "not(" ++ canonEx e ++ ")"
+/-- the three non-ASCII characters that Go's ToUpper / EqualFold map onto ASCII letters (ı, ſ, K) -/
+def foldsIntoAscii (s : String) : Bool := s.any fun c => c.toNat == 0x131 || c.toNat == 0x17F || c.toNat == 0x212A
 
 def parseTok (s : String) : PTok :=
   match s.splitOn ":" with
@@ -27,10 +19,7 @@ def parseTok (s : String) : PTok :=
 
 def exprOp (payload : String) : String :=
   let toks := (payload.splitOn " ").filter (· != "") |>.map parseTok
-  match pExpr (9 * toks.length + 16) 0 toks with
-  | .ok e rest => s!"OK {canonEx e} {rest.length}"
-  | .err c => s!"ERR {c}"
-  | .unsupported => "UNSUPPORTED"
-  | .oof => "OOF"
+  if toks.any (fun t => foldsIntoAscii t.lit) then "UNSUPPORTED" else
+  (pExpr (12 * toks.length + 16) 0 toks).canon
 
 end GoSQLXModel.Driver
